@@ -174,6 +174,54 @@ Section Oracles.
     apply (master_rule_current _ ib p dec Hb). exact Hv.
   Qed.
 
+  (** ---- the pipeline: at which stage is the pool asked? ---- *)
+
+  (** asking in the execution stage makes every interleaving of deliveries and executions answer
+      exactly like lock-step execution of the same blocks: each block is verified against the
+      state committed by the block executed before it *)
+  Theorem pipeline_is_lockstep c : d_verify_at_enqueue c = false ->
+    forall evs n,
+    q_run H digest rule_validate recover c n evs
+    = lockstep H digest rule_validate recover (q_committed n) (executed (map fst (q_queue n)) evs).
+  Proof.
+    intros Hc. induction evs as [|e t IH]; intros n; [reflexivity|].
+    destruct e as [b|]; simpl.
+    - rewrite IH. simpl. rewrite map_app. reflexivity.
+    - destruct (q_queue n) as [|[b early] r] eqn:Eq; simpl.
+      + rewrite IH, Eq. reflexivity.
+      + rewrite Hc, IH. reflexivity.
+  Qed.
+
+  Lemma lockstep_sound cur bs : forall st vs, In (st, vs) (lockstep H digest rule_validate recover cur bs) ->
+    exists b, In b bs /\ vs = answers_of H digest rule_validate recover st b.
+  Proof.
+    revert cur. induction bs as [|b t IH]; intros cur st vs Hin; [destruct Hin|].
+    destruct Hin as [E|Hin].
+    - inversion E; subst. exists b. split; [left; reflexivity | reflexivity].
+    - destruct (IH _ _ _ Hin) as [b' [Hb Hv]]. exists b'. split; [right; exact Hb | exact Hv].
+  Qed.
+
+  (** hence: an OK given to a locally originated IBTP of an executed block means that the first
+      available rule bound in the state committed by the PREVIOUSLY EXECUTED block accepted -
+      however many blocks were queued when this one was delivered *)
+  Theorem master_rule_current_pipeline c n evs st vs :
+    d_verify_at_enqueue c = false ->
+    In (st, vs) (q_run H digest rule_validate recover c n evs) ->
+    exists b, vs = answers_of H digest rule_validate recover st b /\
+      forall k ib p dec, nth_error (qb_checks b) k = Some (ib, PdBytes p dec) -> nth_error vs k = Some VOk ->
+        fst (origin ib) = ps_bxh st ->
+        exists app r, ps_chains st (snd (origin ib)) = Some app /\
+                      master_rule st (snd (origin ib)) = Some r /\ r_available r = true /\
+                      rule_validate (r_addr r) (snd (origin ib)) p (ib_id ib) (a_trust app) = Some true.
+  Proof.
+    intros Hc Hin. rewrite (pipeline_is_lockstep c Hc) in Hin.
+    destruct (lockstep_sound _ _ _ _ Hin) as [b [_ Hv]]. exists b. split; [exact Hv|].
+    intros k ib p dec Hk Ha Hb. subst vs. unfold answers_of in Ha. rewrite nth_error_map, Hk in Ha. simpl in Ha.
+    inversion Ha as [Hok].
+    destruct (master_rule_current st ib p dec Hb Hok) as [_ [app [r [A1 [A2 [A3 [_ A5]]]]]]].
+    exists app, r. repeat split; assumption.
+  Qed.
+
   (** no available rule, an unregistered chain, an absent proof or a hash mismatch reject *)
   Theorem rejects st ib :
     verify st ib PdAbsent = VErr 1 /\
@@ -309,6 +357,26 @@ Example pool_fresh_example :
   answers (pool_run c_H c_digest c_rule c_recover {| d_memo_view := true; snapshot_ledger := false |}
              {| n_committed := st_rule 0; n_view := None |} pool_hist)
   = [None; Some VOk; None; Some (VErr 5); None; Some (VErr 5)].
+Proof. split; reflexivity. Qed.
+
+(** asking when the block enters the pipeline: expected refutation.  The accept-everything rule is
+    bound; block 1 binds the Fabric rule, block 2 carries a junk proof; both are delivered before
+    block 1 is executed *)
+Definition qb1 : qblock := {| qb_checks := []; qb_after := st_rule 2 |}.
+Definition qb2 : qblock := {| qb_checks := [(ib_local, PdBytes 901 None)]; qb_after := st_rule 2 |}.
+Definition q0 : qnode := {| q_committed := st_rule 1; q_queue := [] |}.
+Definition qhist := [QEnqueue qb1; QEnqueue qb2; QExecute; QExecute].
+
+Theorem verify_at_enqueue_refuted :
+  map snd (q_run c_H c_digest c_rule c_recover {| d_verify_at_enqueue := true |} q0 qhist) = [[]; [VOk]] /\
+  map snd (lockstep c_H c_digest c_rule c_recover (st_rule 1) [qb1; qb2]) = [[]; [VErr 5]] /\
+  master_accepts (st_rule 2) ib_local (PdBytes 901 None) = false.
+Proof. repeat split; reflexivity. Qed.
+
+Example pipeline_fixed_example :
+  map snd (q_run c_H c_digest c_rule c_recover {| d_verify_at_enqueue := false |} q0 qhist) = [[]; [VErr 5]] /\
+  map snd (q_run c_H c_digest c_rule c_recover {| d_verify_at_enqueue := true |} q0 [QEnqueue qb1; QExecute; QEnqueue qb2; QExecute])
+  = [[]; [VErr 5]].
 Proof. split; reflexivity. Qed.
 
 (** the multi-signature theorem with the digest made concrete: the packed encoding of the IBTP's
